@@ -62,6 +62,8 @@ class World:
         # an unrelated variable of the buildpack process that is not valid Unicode (a Latin-1 value
         # exported by the platform): no concern of the framework
         e["VERIF_UNRELATED_LATIN1"] = "caf\udce9"
+        # a stale PWD inherited from whoever spawned the platform: it names another existing directory
+        e["PWD"] = self.p("bp")
         if extra_env:
             e.update(extra_env)
         if preload:
